@@ -23,17 +23,18 @@ func (h *Hub) HandleConnectionClosed(connection api.ShipConnectionInterface, han
 
 	// only remove this connection if it is the registered one for the ski!
 	// as we can have double connections but only one can be registered
-	if existingC := h.connectionForSKI(remoteSki); existingC != nil {
-		if existingC.DataHandler() == connection.DataHandler() {
-			h.muxCon.Lock()
-			delete(h.connections, connection.RemoteSKI())
-			h.muxCon.Unlock()
-		}
+	// checking and removing has to be one step, otherwise a newer connection registered
+	// in between would be removed
+	h.muxCon.Lock()
+	existingC, exists := h.connections[remoteSki]
+	if exists && existingC.DataHandler() == connection.DataHandler() {
+		delete(h.connections, remoteSki)
+	}
+	h.muxCon.Unlock()
 
-		// connection close was after a completed handshake, so we can reset the attetmpt counter
-		if handshakeCompleted {
-			h.removeConnectionAttemptCounter(connection.RemoteSKI())
-		}
+	// connection close was after a completed handshake, so we can reset the attetmpt counter
+	if exists && handshakeCompleted {
+		h.removeConnectionAttemptCounter(connection.RemoteSKI())
 	}
 
 	h.hubReader.RemoteSKIDisconnected(connection.RemoteSKI())
